@@ -1215,7 +1215,8 @@ func (s *sharedEntryAttributes) validateMandatoryWithKeys(ctx context.Context, l
 		// if not the path exists in the tree and is not to be deleted, then lookup in the paths index of the store
 		// and see if such path exists, if not raise the error
 		if !(existsInTree && v.remainsToExist()) {
-			exists, err := s.treeContext.cacheClient.IntendedPathExists(ctx, append(s.Path(), attribute))
+			// the owners that take part in the transaction contribute what is in the tree, not what is stored
+			exists, err := s.treeContext.cacheClient.IntendedPathExists(ctx, append(s.Path(), attribute), CacheUpdateFilterExcludeOwners(s.treeContext.GetOwners()))
 			owner := "unknown"
 			if lv := s.leafVariants.GetHighestPrecedence(false, true); lv != nil {
 				owner = lv.Owner()
@@ -1231,6 +1232,10 @@ func (s *sharedEntryAttributes) validateMandatoryWithKeys(ctx context.Context, l
 	}
 
 	for _, c := range s.filterActiveChoiceCaseChilds() {
+		// list entries that get removed do not need to carry their mandatory childs
+		if !c.remainsToExist() {
+			continue
+		}
 		c.validateMandatoryWithKeys(ctx, level-1, attribute, resultChan)
 	}
 
